@@ -71,6 +71,10 @@ def type_tok(t, tight=False):
     return K(t, tight) if t.upper() in KEYWORDS else I(t, tight)
 
 
+class Unavailable(Exception):
+    """Every alternative of a production is on the avoid list."""
+
+
 class Gen:
     def __init__(self, rng, avoid=(), depth=3):
         self.rng = rng
@@ -101,6 +105,8 @@ class Gen:
     def choose(self, options):
         """options: list of (atom, weight); returns an atom not in avoid."""
         opts = [(a, w) for a, w in options if self.ok(a)]
+        if not opts:
+            raise Unavailable(options[0][0])
         total = sum(w for _, w in opts)
         x = self.rng.random() * total
         for a, w in opts:
@@ -150,7 +156,8 @@ class Gen:
         if kind == "lit.int.typed":
             t = self.pick(INT_TYPES)
             s, v = self.int_text()
-            neg = self.ok("lit.int.typed.neg") and self.chance(0.2) and not s.startswith(("16#", "8#", "2#"))
+            neg = self.ok("lit.int.typed.neg") and self.ok("int.negative") and self.chance(0.2) and \
+                not s.startswith(("16#", "8#", "2#"))
             toks = [K(t), O("#", True)]
             if neg:
                 toks.append(O("-", True))
@@ -159,7 +166,9 @@ class Gen:
             return toks, ["int", v, t.lower()]
         if kind == "lit.int.signed":
             s, v = self.dec_text()
-            sign = self.pick(["-", "+"])
+            sign = self.pick(["-", "+"] if self.ok("int.negative") else ["+"])
+            if sign == "-":
+                self.atom("int.negative")
             return [O(sign), L(s, True)], ["int", -v if sign == "-" else v, None]
         if kind in ("lit.real", "lit.real.typed", "lit.real.signed"):
             whole = r.randint(0, 999)
@@ -168,13 +177,21 @@ class Gen:
             if self.chance(0.4):
                 s += self.pick(["E", "e"]) + self.pick(["", "+", "-"]) + str(r.randint(0, 12))
             v = float(s)
+            if v.is_integer() or "e" in repr(v):
+                if not self.ok("lit.real.integral"):
+                    s = "%d.%d" % (whole, self.rng.randint(1, 9) * 100 + self.rng.randint(1, 9))
+                    v = float(s)
+                else:
+                    self.atom("lit.real.integral")
             toks = []
             dt = None
             if kind == "lit.real.typed":
                 dt = self.pick(REAL_TYPES)
                 toks += [K(dt), O("#", True)]
             if kind == "lit.real.signed":
-                sign = self.pick(["-", "+"])
+                sign = self.pick(["-", "+"] if self.ok("real.negative") else ["+"])
+                if sign == "-":
+                    self.atom("real.negative")
                 toks.append(O(sign))
                 if sign == "-":
                     v = -v
@@ -245,6 +262,8 @@ class Gen:
         elif form == "lit.duration.fraction":
             v = r.randint(0, 500)
             f = r.randint(0, 999)
+            if not self.ok("lit.duration.subms") and unit == "ms":
+                f = 0
             toks += [L("%d.%03d" % (v, f), True), TK(unit, True)]
             ns = v * ns_per + f * ns_per // 1000
         else:
@@ -262,6 +281,8 @@ class Gen:
                 first = False
         if neg:
             ns = -ns
+        if ns % 1000000:
+            self.atom("lit.duration.subms")
         return toks, ["dur", ns]
 
     def enum_value(self, values, tname=None):
@@ -322,7 +343,13 @@ class Gen:
                 self.atom("op.unary.neg")
             else:
                 self.atom("op.NOT")
-            return ["un", op[1], self.expr_tree(depth - 1, names)]
+            child = self.expr_tree(depth - 1, names)
+            if child[0] == "un" or (child[0] == "_lit" and child[2][0] in ("int", "real") and
+                                    str(child[2][1]).startswith("-")):
+                if not self.ok("expr.unary.nested"):
+                    return child
+                self.atom("expr.unary.nested")
+            return ["un", op[1], child]
         t, k, o, lvl = self.pick(BIN_OPS)
         if t == "&" and not self.ok("op.amp"):
             t = "AND"
@@ -335,8 +362,10 @@ class Gen:
     def call_tree(self, depth, names):
         fname = self.pick(["fnA", "Calc", "limit_it"])
         args = []
-        style = self.pick(["pos", "named"])
+        style = self.pick(["pos", "named"] if self.ok("call.named") else ["pos"])
         for i in range(self.rng.randint(0, 3)):
+            if style == "named":
+                self.atom("call.named")
             e = self.expr_tree(depth - 1, names)
             if style == "pos":
                 args.append(["pos", e])
@@ -490,10 +519,12 @@ class Gen:
             groups = []
             for _ in range(self.rng.randint(1, 3)):
                 sels = []
-                for i in range(self.rng.randint(1, 3)):
+                for i in range(self.rng.randint(1, 3 if self.ok("case.multi") else 1)):
                     if i:
                         toks.append(O(","))
-                    sk = self.choose([("case.int", 3), ("case.int.neg", 1), ("case.range", 2), ("case.enum", 1)])
+                        self.atom("case.multi")
+                    sk = self.choose([("case.int", 3), ("case.int.neg", 1 if self.ok("int.negative") else 0),
+                                      ("case.range", 2), ("case.enum", 1)])
                     self.atom(sk)
                     if sk == "case.int":
                         s, v = self.dec_text()
@@ -504,7 +535,7 @@ class Gen:
                         toks += [O("-"), L(s, True)]
                         sels.append(["int", -v])
                     elif sk == "case.range":
-                        a = self.rng.randint(-50, 50)
+                        a = self.rng.randint(-50 if self.ok("int.negative") else 0, 50)
                         b = a + self.rng.randint(1, 50)
                         toks += self.signed_toks(a) + [O("..", True)] + self.signed_toks(b, True)
                         sels.append(["range", a, b])
@@ -548,13 +579,14 @@ class Gen:
 
     def signed_toks(self, v, tight=False):
         if v < 0:
+            self.atom("int.negative")
             return [O("-", tight), L(str(-v), True)]
         return [L(str(v), tight)]
 
     # ------------------------------------------------------------------ type declarations
     def subrange_spec(self):
         t = self.pick(INT_TYPES)
-        a = self.rng.randint(-100, 100)
+        a = self.rng.randint(-100 if self.ok("int.negative") else 0, 100)
         b = a + self.rng.randint(1, 100)
         toks = [K(t), O("(")] + self.signed_toks(a) + [O("..", True)] + self.signed_toks(b, True) + [O(")")]
         return toks, t.lower(), a, b
@@ -565,7 +597,7 @@ class Gen:
         for i in range(self.rng.randint(1, 2)):
             if i:
                 toks.append(O(","))
-            a = self.rng.randint(-5, 5)
+            a = self.rng.randint(-5 if self.ok("int.negative") else 0, 5)
             b = a + self.rng.randint(1, 9)
             toks += self.signed_toks(a) + [O("..", True)] + self.signed_toks(b, True)
             ranges.append([a, b])
@@ -1191,13 +1223,13 @@ class Gen:
         self.atom("configuration")
         toks = [K("CONFIGURATION"), I(name)]
         globals_ = []
-        if self.chance(0.5):
+        if self.ok("var.GLOBAL") and self.chance(0.5):
             gt, globals_ = self.global_block()
             toks += gt
         rname = self.name("res")
         toks += [K("RESOURCE"), I(rname), K("ON"), I("PLC")]
         rglobals = []
-        if self.chance(0.3):
+        if self.ok("var.GLOBAL") and self.ok("resource.globals") and self.chance(0.3):
             self.atom("resource.globals")
             gt, rglobals = self.global_block()
             toks += gt
@@ -1207,7 +1239,7 @@ class Gen:
             prio = self.rng.randint(0, 20)
             toks += [K("TASK"), I(tn), O("(")]
             interval = None
-            if self.chance(0.6):
+            if self.ok("task.interval") and self.chance(0.6):
                 self.atom("task.interval")
                 dt, dnf = self.duration()
                 toks += [TK("INTERVAL"), O(":=")] + dt + [O(",")]
@@ -1220,7 +1252,7 @@ class Gen:
             pt = self.pick(programs) if programs else "MainProg"
             toks.append(K("PROGRAM"))
             storage = None
-            if self.chance(0.2):
+            if self.ok("progconf.storage") and self.chance(0.2):
                 st = self.pick([("RETAIN", "Retain"), ("NON_RETAIN", "NonRetain")])
                 self.atom("progconf.storage")
                 toks.append(K(st[0]))
@@ -1312,6 +1344,7 @@ class Gen:
     def global_block(self):
         q = self.pick([("", "Unspecified"), ("CONSTANT", "Constant"), ("RETAIN", "Retain")])
         self.atom("var.GLOBAL." + q[1])
+        self.atom("var.GLOBAL")
         toks = [K("VAR_GLOBAL")] + ([K(q[0])] if q[0] else [])
         vars_ = []
         for _ in range(self.rng.randint(1, 3)):
@@ -1346,26 +1379,36 @@ class Gen:
         toks, nfs = [], []
         programs = []
         i = 0
+        tries = 0
         while i < n:
             k = self.choose([("decl.type", 3), ("decl.function", 2), ("decl.fb", 3), ("decl.program", 3),
                              ("decl.config", 1)])
-            if k == "decl.type":
-                names = [self.name("T") for _ in range(self.rng.randint(1, 3))]
-                t, nf = self.type_block(names)
-                toks += t
-                nfs += nf
-                i += len(names)
+            saved = (set(self.atoms), list(self.addrs))
+            try:
+                if k == "decl.type":
+                    names = [self.name("T") for _ in range(self.rng.randint(1, 3))]
+                    t, nf = self.type_block(names)
+                    toks += t
+                    nfs += nf
+                    i += len(names)
+                    continue
+                if k == "decl.function":
+                    t, nf = self.function(self.name("Fn"))
+                elif k == "decl.fb":
+                    t, nf = self.function_block(self.name("Fb"))
+                elif k == "decl.program":
+                    pn = self.name("Prg")
+                    t, nf = self.program(pn)
+                    programs.append(pn)
+                else:
+                    t, nf = self.configuration(self.name("Cfg"), programs)
+            except Unavailable:
+                # a production whose every alternative is avoided: drop this declaration, try another
+                self.atoms, self.addrs = saved
+                tries += 1
+                if tries > 200:
+                    raise
                 continue
-            if k == "decl.function":
-                t, nf = self.function(self.name("Fn"))
-            elif k == "decl.fb":
-                t, nf = self.function_block(self.name("Fb"))
-            elif k == "decl.program":
-                pn = self.name("Prg")
-                t, nf = self.program(pn)
-                programs.append(pn)
-            else:
-                t, nf = self.configuration(self.name("Cfg"), programs)
             toks += t
             nfs.append(nf)
             i += 1
